@@ -372,6 +372,14 @@ def h_dead(x):
     return x
 
 
+def h_dead_handler(x):
+    try:
+        pass
+    except KeyError:      # CPython keeps the (unreachable) handler blocks: dead-code filter
+        x = 1
+    return x
+
+
 def h_raise(x):
     if x:
         raise ValueError(x)
